@@ -6,7 +6,7 @@
 (* wildcard; addresses are lower-case hexadecimal of 1 to 7 digits and     *)
 (* include words that are also mnemonics.                                   *)
 (***************************************************************************)
-EXTENDS JasmUniverse
+EXTENDS JasmUniverse, JasmObjdump
 CONSTANTS MaxListing
 
 I(m) == PIns(m, <<>>)
@@ -30,6 +30,23 @@ PatternsA == { PAnd(<<PIns(AnyName, <<>>)>>), PAnd(<<PIns("a", <<A>>)>>), PAnd(<
                PAnd(<<PIns("a", <<X, Y, A>>), I("q")>>) }
 ListingsA == ListingsP
 
+\* listings as objdump prints them, with instructions longer than 7 bytes (byte-continuation lines), labels and
+\* annotations BEFORE the match: the reported address must still be the first covered instruction's
+B7 == <<"48", "b8", "88", "77", "66", "55", "44">>
+LongI(a) == InsnLine(a, B7, "movabs", <<Imm("0x1122334455667788"), Reg("%rax")>>)
+TextBlocks == { <<LongI("401000"), ContLine("401007", <<"33", "22", "11">>)>>,
+                <<InsnLine("40100a", <<"55">>, "push", <<Reg("%rbp")>>)>>,
+                <<[InsnLine("40100b", <<"e8", "10", "00", "00", "00">>, "call", <<Target("401020")>>) EXCEPT !.sym = "g"]>>,
+                <<LabelLine("000000000040100a", "f")>>,
+                <<LongI("401010"), ContLine("401017", <<"33", "22", "11">>), InsnLine("40101a", <<"c3">>, "ret", <<>>)>> }
+RECURSIVE FlatT(_)
+FlatT(ss) == IF ss = <<>> THEN <<>> ELSE Head(ss) \o FlatT(Tail(ss))
+TextListings == { FlatT(s) : s \in SeqsBetween(TextBlocks, 1, 3) }
+TextSeq == SetToSeq(TextListings)
+PatternsT == { PAnd(<<I("push")>>), PAnd(<<I("call")>>), PAnd(<<I("push"), I("call")>>), PAnd(<<I("ret")>>), PAnd(<<PNot(I("movabs")), I("call")>>) }
+UniverseT == [patterns |-> SetToSeq(PatternsT),
+              listings |-> [n \in DOMAIN TextSeq |-> Stream(TextSeq[n])],
+              texts    |-> [n \in DOMAIN TextSeq |-> ListingLines(TextSeq[n])]]
 UniverseP == [patterns |-> SetToSeq(PatternsP), listings |-> SetToSeq(ListingsP)]
 UniverseA == [patterns |-> SetToSeq(PatternsA), listings |-> SetToSeq(ListingsA)]
 =============================================================================
